@@ -218,7 +218,7 @@ PyItem(s, v, key) ==
       [] OTHER -> [found |-> FALSE, v |-> VNone]
 
 \* values on which the model knows every attribute / item (others: EXCLUDED when missing)
-ClosedAttrs(v) == v.t \in {"obj", "ns", "loop", "module", "tref", "bref", "none", "int", "bool", "cycler"}
+ClosedAttrs(v) == v.t \in {"obj", "ns", "loop", "module", "tref", "bref", "none", "int", "bool", "cycler", "float"}
 
 UndefAttr(v, a) == VUndef([k |-> "attr", n |-> a, o |-> v.t])
 
@@ -268,8 +268,8 @@ GetItem(s, v, key) ==
                        ELSE Fail(s, "EXCLUDED")
                    ELSE IF ClosedAttrs(v) THEN R(UndefAttr(v, KeyName(key)), s)
                    ELSE Fail(s, "EXCLUDED")
-         ELSE IF v.t \in {"dict", "list"} /\ key.t \in {"int", "bool", "none"} THEN R(UndefAttr(v, "?"), s)
-         ELSE IF v.t \in {"int", "bool", "none"} THEN R(UndefAttr(v, "?"), s)
+         ELSE IF v.t \in {"dict", "list"} /\ key.t \in {"int", "bool", "none", "float"} THEN R(UndefAttr(v, "?"), s)
+         ELSE IF v.t \in {"int", "bool", "none", "float"} THEN R(UndefAttr(v, "?"), s)
          ELSE Fail(s, "EXCLUDED")
 
 (* ================================================================================= *)
@@ -506,7 +506,7 @@ CallValue(f, args, kw, s, E) ==
            ELSE R(args[(f.l.i % Len(args)) + 1], s)
       [] f.t = "bref" -> RenderBlockRef(f, s, E)
       [] f.t = "undef" -> Fail(s, "UndefinedError")
-      [] f.t \in {"int", "bool", "none", "str", "list", "dict", "ns", "module", "tref", "cycler"} -> Fail(s, "TypeError")
+      [] f.t \in {"int", "bool", "none", "str", "list", "dict", "ns", "module", "tref", "cycler", "float"} -> Fail(s, "TypeError")
       [] OTHER -> Fail(s, "EXCLUDED")
 
 \* super() / self.name(): render the referenced block definition into a string
@@ -579,6 +579,13 @@ InvokeMacro(m, args, kw, s, E) ==
 RECURSIVE SumInts(_), InsertSorted(_, _), SortInts(_), JoinWith(_, _, _, _), RevSeq(_)
 SumInts(xs) == IF xs = <<>> THEN 0 ELSE NumOf(Head(xs)) + SumInts(Tail(xs))
 RevSeq(xs) == IF xs = <<>> THEN <<>> ELSE Append(RevSeq(Tail(xs)), Head(xs))
+RECURSIVE SumReals(_, _)
+SumReals(xs, acc) ==
+    IF xs = <<>> THEN Ok(acc)
+    ELSE IF IsNum(acc) /\ IsNum(Head(xs)) THEN SumReals(Tail(xs), VInt(NumOf(acc) + NumOf(Head(xs))))
+    ELSE IF ~FGuard(acc, Head(xs)) THEN Err("EXCLUDED")
+    ELSE LET r == MkFloat(FA(acc, Head(xs)) + FB(acc, Head(xs)), FE(acc, Head(xs))) IN
+         IF ~r.ok THEN r ELSE SumReals(Tail(xs), r.v)
 AllNum(xs) == \A i \in 1..Len(xs) : IsNum(xs[i])
 AllInt(xs) == \A i \in 1..Len(xs) : xs[i].t = "int"
 InsertSorted(x, ys) == IF ys = <<>> THEN <<x>> ELSE IF x.n < Head(ys).n THEN <<x>> \o ys
@@ -594,7 +601,7 @@ IterItems(v) ==
     CASE v.t = "list" -> [ok |-> TRUE, v |-> v.v, err |-> ""]
       [] v.t = "dict" -> [ok |-> TRUE, v |-> v.k, err |-> ""]
       [] v.t = "undef" -> IF UKof(v, UK) = "strict" THEN Err("UndefinedError") ELSE [ok |-> TRUE, v |-> <<>>, err |-> ""]
-      [] v.t \in {"int", "bool", "none"} -> Err("TypeError")
+      [] v.t \in {"int", "bool", "none", "float"} -> Err("TypeError")
       [] OTHER -> Err("EXCLUDED")
 
 ApplyFilter(n, v, args, kw, s, E) ==
@@ -619,7 +626,7 @@ ApplyFilter(n, v, args, kw, s, E) ==
            CASE v.t = "list" -> R(VInt(Len(v.v)), s)
              [] v.t = "dict" -> R(VInt(Len(v.k)), s)
              [] v.t = "undef" -> IF UKof(v, UK) = "strict" THEN Fail(s, "UndefinedError") ELSE R(VInt(0), s)
-             [] v.t \in {"int", "bool", "none"} -> Fail(s, "TypeError")
+             [] v.t \in {"int", "bool", "none", "float"} -> Fail(s, "TypeError")
              [] OTHER -> Fail(s, "EXCLUDED")
       [] n = "first" ->
            LET it == IterItems(v) IN
@@ -639,6 +646,8 @@ ApplyFilter(n, v, args, kw, s, E) ==
            Fail(s, "EXCLUDED")
       [] n = "sum" ->
            IF v.t = "list" /\ AllNum(v.v) /\ args = <<>> /\ kw.n = <<>> THEN R(VInt(SumInts(v.v)), s)
+           ELSE IF v.t = "list" /\ ~IsRange(v) /\ (\A i \in 1..Len(v.v) : IsReal(v.v[i])) /\ args = <<>> /\ kw.n = <<>>
+                THEN Lift(SumReals(v.v, VInt(0)), s)                  \* 0 + x1 + x2 ...: a float as soon as one item is
            ELSE IF v.t = "undef" /\ UK # "strict" /\ args = <<>> /\ kw.n = <<>> THEN R(VInt(0), s)
            ELSE Fail(s, "EXCLUDED")
       [] n \in {"min", "max"} ->
@@ -651,10 +660,40 @@ ApplyFilter(n, v, args, kw, s, E) ==
            ELSE Fail(s, "EXCLUDED")
       [] n = "abs" ->
            IF IsNum(v) THEN R(VInt(IF NumOf(v) < 0 THEN 0 - NumOf(v) ELSE NumOf(v)), s)
+           ELSE IF v.t = "float" THEN R(VFloat(Abs(v.n), v.e), s)
            ELSE IF v.t = "undef" THEN Fail(s, "EXCLUDED")            \* abs(undefined): not in the documented table
            ELSE IF v.t \in {"none", "str", "list", "dict"} THEN Fail(s, "TypeError") ELSE Fail(s, "EXCLUDED")
+      [] n = "float" ->
+           \* do_float: float(value); TypeError / ValueError give the default (0.0)
+           IF IsReal(v) THEN Lift(MkFloat(RN(v), RE(v)), s)
+           ELSE IF v.t = "undef" THEN Fail(s, "UndefinedError")
+           ELSE IF v.t \in {"none", "list", "dict"} THEN R(IF Len(args) >= 1 THEN args[1] ELSE VFloat(0, 0), s)
+           ELSE Fail(s, "EXCLUDED")
+      [] n = "round" ->
+           \* round(value, precision=0, method="common"): Python's round() (ties to even) for "common",
+           \* ceil / floor of the value divided back otherwise; only precision 0 is modelled
+           LET pr == IF Len(args) >= 1 THEN args[1] ELSE IF KwGet(kw, "precision").found THEN KwGet(kw, "precision").v ELSE VInt(0)
+               me == IF Len(args) >= 2 THEN args[2] ELSE IF KwGet(kw, "method").found THEN KwGet(kw, "method").v ELSE StrKey("common")
+               mn == KeyName(me) IN
+           IF v.t = "undef" THEN Fail(s, "EXCLUDED")
+           ELSE IF ~IsReal(v) \/ pr.t # "int" \/ pr.n # 0 \/ Len(args) > 2 THEN Fail(s, "EXCLUDED")
+           ELSE IF mn \notin {"common", "ceil", "floor"} THEN Fail(s, "EXCLUDED")
+           ELSE IF Abs(RN(v)) > FBound THEN Fail(s, "EXCLUDED")
+           ELSE LET p == PowN(2, RE(v))
+                    fl == PFloorDiv(RN(v), p)
+                    rem == RN(v) - fl * p                      \* 0 <= rem < p, in units of 1/p
+                    ce == IF rem = 0 THEN fl ELSE fl + 1
+                    nearest == IF 2 * rem < p THEN fl ELSE IF 2 * rem > p THEN fl + 1
+                               ELSE (IF fl % 2 = 0 THEN fl ELSE fl + 1)          \* tie: to even
+               IN IF mn = "common" THEN
+                      (IF v.t # "float" THEN R(VInt(NumOf(v)), s)              \* round(int) is an int
+                       ELSE IF nearest = 0 /\ RN(v) < 0 THEN Fail(s, "EXCLUDED")   \* -0.0
+                       ELSE R(VFloat(nearest, 0), s))
+                  ELSE IF mn = "ceil" THEN R(VFloat(ce, 0), s)
+                  ELSE R(VFloat(fl, 0), s)
       [] n = "int" ->
            IF IsNum(v) THEN R(VInt(NumOf(v)), s)
+           ELSE IF v.t = "float" THEN R(VInt(FTrunc(v)), s)
            ELSE IF v.t = "undef" THEN Fail(s, "UndefinedError")      \* int(undefined) raises (documented)
            ELSE IF v.t \in {"none", "list", "dict"} THEN
                 R(IF Len(args) >= 1 THEN args[1] ELSE VInt(0), s)
@@ -701,7 +740,8 @@ ApplyTest(n, v, args, s, E) ==
       [] n = "true" -> R(VBool(v.t = "bool" /\ v.b), s)
       [] n = "false" -> R(VBool(v.t = "bool" /\ ~v.b), s)
       [] n = "integer" -> R(VBool(v.t = "int"), s)
-      [] n = "number" -> R(VBool(IsNum(v)), s)
+      [] n = "number" -> R(VBool(IsReal(v)), s)
+      [] n = "float" -> R(VBool(v.t = "float"), s)
       [] n = "string" -> R(VBool(v.t = "str"), s)
       [] n = "mapping" -> IF v.t \in {"obj", "fn", "module"} THEN Fail(s, "EXCLUDED") ELSE R(VBool(v.t = "dict"), s)
       [] n = "sequence" -> IF v.t \in {"obj", "fn", "module", "loop", "ns"} THEN Fail(s, "EXCLUDED")
@@ -909,7 +949,7 @@ Ex(st, s, E) ==
                          THEN (IF Objs[r.v.id].str.t = "raiser" THEN Err("Raised:" \o Objs[r.v.id].str.id)
                                ELSE OutputOf(Objs[r.v.id].str, Mode(E, r.S), UK))
                          ELSE OutputOf(r.v, Mode(E, r.S), UK)
-                    s1 == IF Fld(Case, "emit_values", FALSE) /\ r.v.t \in {"int", "bool", "none", "str", "list", "dict", "undef", "obj", "fn"}
+                    s1 == IF Fld(Case, "emit_values", FALSE) /\ r.v.t \in {"int", "bool", "none", "str", "list", "dict", "undef", "obj", "fn", "float"}
                           THEN Log(r.S, <<"value", r.v>>) ELSE r.S IN
                 IF ~o.ok THEN Fail(s1, o.err).S
                 ELSE IF Suppressed(s1, E) THEN s1 ELSE Emit(s1, Written(o.v.s, Mode(E, s1)))
